@@ -301,12 +301,20 @@ static CO_ERR COCSdoUploadSegmented(CO_CSDO *csdo)
     uint32_t  ticks;
     uint8_t   cmd;
     uint8_t   n;
+    uint32_t  width;
     CO_IF_FRM frm;
 
     cmd = CO_GET_BYTE(csdo->Frm, 0u);
     if (((cmd >> 4u) & 0x01u) == csdo->Tfer.TBit) {
 
-        for (n = 1u; (n < 8u) && (csdo->Tfer.Buf_Idx < csdo->Tfer.Size); n++) {
+        width = 7u - (((uint32_t)cmd >> 1u) & 0x07u);
+        if (width > (csdo->Tfer.Size - csdo->Tfer.Buf_Idx)) {
+            /* server sends more data than announced */
+            COCSdoAbort(csdo, CO_SDO_ERR_LEN_HIGH);
+            COCSdoTransferFinalize(csdo);
+            return result;
+        }
+        for (n = 1u; n <= width; n++) {
             csdo->Tfer.Buf[csdo->Tfer.Buf_Idx] = CO_GET_BYTE(csdo->Frm, n);
             csdo->Tfer.Buf_Idx++;
         }
@@ -334,6 +342,10 @@ static CO_ERR COCSdoUploadSegmented(CO_CSDO *csdo)
 
             (void)COIfCanSend(&csdo->Node->If, &frm);
         } else {
+            if (csdo->Tfer.Buf_Idx != csdo->Tfer.Size) {
+                /* server sends less data than announced */
+                COCSdoAbort(csdo, CO_SDO_ERR_LEN_SMALL);
+            }
             COCSdoTransferFinalize(csdo);
         }
     } else {
